@@ -9,5 +9,18 @@ gcc -shared -fPIC -O2 -o shim/getrandom_shim.so shim/getrandom_shim.c
 if [ ! -f sim/Cargo.lock ] || [ /repo/Cargo.lock -nt sim/Cargo.lock ]; then
     cp /repo/Cargo.lock sim/Cargo.lock
 fi
-(cd sim && cargo build --release --offline 2>&1 | tail -3)
+# never fall back to a stale binary: a failed build must fail the setup
+rm -f .work/build.ok
+(cd sim && cargo build --release --offline > ../.work/cargo-build.log 2>&1 && touch ../.work/build.ok) || true
+tail -3 .work/cargo-build.log
+if [ ! -f .work/build.ok ]; then
+    grep -E "^error" -A12 .work/cargo-build.log | head -60
+    rm -f sim/target/release/verif-sim
+    exit 1
+fi
+# probe programs of C12 Part C: resolve with the same lock file, pre-build roto for `cargo check`
+if [ ! -f probes/Cargo.lock ] || [ /repo/Cargo.lock -nt probes/Cargo.lock ]; then
+    cp /repo/Cargo.lock probes/Cargo.lock
+fi
+(cd probes && cargo check --offline --quiet --bin p8_rc_argument >/dev/null 2>&1 || true)
 test -x sim/target/release/verif-sim
